@@ -144,62 +144,17 @@ Proof.
     match goal with H : call _ _ _ _ = Some _ |- _ => apply (Hcall _ _ _ _ _ I H); eapply MK_frame; [..|exact B]; rsimpl; reflexivity end.
 Qed.
 
-(* ------------------------------------------------------------------------- *)
-(* Registered ids are marker ids                                              *)
-(* ------------------------------------------------------------------------- *)
-(* [S] is a set of identifiers containing the empty one (the initial markerID) and the identifier
-   of every OnMarker call: then the ids in markedObjects and the current markerID are in [S]. *)
-Section MarkedIds.
-  Variable S : bytes -> Prop.
-  Hypothesis S_nil : S [].
 
-  Definition MS (c : rctx) : Prop := (forall id, In id (akeys (marked c)) -> S id) /\ S (marker_id c).
-  Definition MS_Ra (m : meth) (a : args) : Prop := m = MMarker -> S (a_id a).
-  Definition is_MMarker (m : meth) : bool := match m with MMarker => true | _ => false end.
-  Definition MS_pok (m : meth) (p : prim) : bool :=
-    match p with
-    | PBeginMarkerAnyType _ | PBeginMarkerKeyable _ => is_MMarker m
-    | PForwardCurrent m' | PForwardParent m' => negb (is_MMarker m') || is_MMarker m
-    | _ => true
-    end.
-
-  Lemma MS_frame c c' : marked c' = marked c -> marker_id c' = marker_id c -> MS c -> MS c'.
-  Proof. unfold MS. intros -> ->. auto. Qed.
-
-  Lemma MS_prim cfg call :
-    (forall r m a c c', MS_Ra m a -> call r m a c = Some c' -> MS c -> MS c') ->
-    forall self m a p c c', MS_Ra m a -> MS_pok m p = true -> exec_prim cfg call self m a p c = Some c' -> MS c -> MS c'.
-  Proof.
-    intros Hcall self m a p c c' Ha Hp E.
-    assert (forall dt c0 c1, mark_object cfg dt c0 = Some c1 -> MS c0 -> MS c1) as HM.
-    { unfold mark_object, MS. intros dt c0 c1 H [M1 M2]. inv_some; rsimpl; (split; [|exact M2]);
-        intros id I; apply akeys_aset in I as [->|I]; auto. }
-    assert (forall id al c0 c1, local_reference id al c0 = Some c1 -> MS c0 -> MS c1) as HL.
-    { unfold local_reference. intros id al c0 c1 H B. inv_some; [exact B|]. eapply MS_frame; [..|exact B]; reflexivity. }
-    prim_cases_keep p E; intro B; cbn [MS_pok] in Hp; rsimpl;
-      try exact B;
-      try (eapply HM; eassumption); try (eapply HL; eassumption);
-      try match goal with
-      | H : call _ ?m' _ _ = Some _ |- _ =>
-          refine (Hcall _ _ _ _ _ _ H _);
-            [ unfold MS_Ra; cbn [a_id with_dtype no_args with_key]; first [ intro X; discriminate X | idtac ]
-            | exact B ]
-      end.
-    - (* BeginMarkerAnyType *) destruct m; try discriminate Hp. destruct B as [B1 B2]. split; rsimpl; auto.
-    - destruct m; try discriminate Hp. destruct B as [B1 B2]. split; rsimpl; auto.
-    - (* PForwardCurrent *) unfold MS_Ra in *. intro X. subst. cbn in Hp. destruct m; try discriminate Hp. auto.
-    - unfold MS_Ra in *. intro X. subst. cbn in Hp. destruct m; try discriminate Hp. auto.
-  Qed.
-
-  Lemma MS_table : table_forall (fun _ m cell => has_reject cell || forallb (MS_pok m) cell) = true.
-  Proof. vm_compute. reflexivity. Qed.
-
-  Lemma MS_call cfg f r m a c c' : MS_Ra m a -> call_rule f cfg r m a c = Some c' -> MS c -> MS c'.
-  Proof.
-    apply (call_rule_RM cfg (fun c c' => MS c -> MS c') MS_Ra MS_pok); auto using MS_table.
-    intros call Hcall self m0 a0 p c0 c0' Ha Hp E. eapply MS_prim; eauto.
-  Qed.
-End MarkedIds.
+Definition is_MMarker (m : meth) : bool := match m with MMarker => true | _ => false end.
+(* BeginMarker occurs only in cells of OnMarker, and OnMarker is forwarded only from there *)
+Definition MS_pok (m : meth) (p : prim) : bool :=
+  match p with
+  | PBeginMarkerAnyType _ | PBeginMarkerKeyable _ => is_MMarker m
+  | PForwardCurrent m' | PForwardParent m' => negb (is_MMarker m') || is_MMarker m
+  | _ => true
+  end.
+Lemma MS_table : table_forall (fun _ m cell => has_reject cell || forallb (MS_pok m) cell) = true.
+Proof. vm_compute. reflexivity. Qed.
 
 (* ------------------------------------------------------------------------- *)
 (* Referenced ids stay known; key references stay keyable                     *)
@@ -282,6 +237,8 @@ Proof.
   prim_cases_keep p E; intro B;
     try (split; [|split]; [intro X; exact X | intro X; exact X | exact B]);
     try (split; [|split]; [eapply mark_object_Rin; eassumption | eapply mark_object_Kinv; eassumption | eapply mark_object_MK; eassumption]);
+    try (match goal with H : mark_object _ _ ?cm = Some _ |- _ =>
+           split; [|split]; [exact (mark_object_Rin _ _ id cm _ H) | exact (mark_object_Kinv _ _ id cm _ H B) | exact (mark_object_MK _ _ cm _ H B)] end);
     try (split; [|split]; [eapply local_reference_Rin; eassumption
                           | eapply local_reference_Kinv; [eassumption | auto | exact B]
                           | eapply local_reference_MK; [eassumption | auto | exact B]]);
@@ -523,41 +480,379 @@ Lemma validate_identifier_nonempty cfg id : validate_identifier cfg id = true ->
 Proof. unfold validate_identifier. intros H ->. cbn in H. discriminate. Qed.
 
 (* the ids in markedObjects are ids of marker events (or the empty initial markerID) *)
-Lemma rstep_MS (S : bytes -> Prop) cfg c e c' o :
-  S [] -> rstep cfg c e = Some (c', o) -> (forall id, e = EMarker id -> S id) -> MS S c -> MS S c'.
+
+(* ------------------------------------------------------------------------- *)
+(* Registered ids are marker ids                                              *)
+(* ------------------------------------------------------------------------- *)
+(* [S] contains the identifier of every OnMarker call.  Then: the current markerID is in [S] whenever a
+   marker entry is open; the ids in markedObjects are in [S]; every marker entry on the stack carries its
+   own id (tag), which is in [S]. *)
+Definition crules (c : rctx) : list rule := e_rule (cur c) :: srules c.
+Definition rule_is_marker (r : rule) : bool := rclass_eqb (rclass_of r) KMarker.
+
+Lemma count_cl_in r rs : In r rs -> rclass_of r = KMarker -> count_cl KMarker rs <> O.
 Proof.
-  intros S0. rewrite rstep_plan. destruct (ev_plan cfg e) as [pl|] eqn:P; [|discriminate].
-  destruct (plan_step cfg pl c) as [c2|] eqn:St; [|discriminate]. intros H Hm B; inv_some.
-  assert (MS_Ra S (p_meth pl) (p_args pl)) as Ra.
-  { unfold MS_Ra. intro M. revert P M.
+  induction rs as [|x rs IH]; intros I K; [destruct I|]; destruct I as [->|I]; rewrite count_cl_cons.
+  - rewrite K. cbn. lia.
+  - specialize (IH I K). lia.
+Qed.
+
+Definition is_guardp (p : prim) : bool :=
+  match p with
+  | PValidateFullArrayAnyType | PValidateFullArrayStringlike | PValidateFullArrayKeyable | PValidateFullArrayStringlikeKeyable
+  | PAssertArrayType _ | PCheckVersion => true
+  | _ => false
+  end.
+Definition needs_class (p : prim) : bool :=
+  match p with
+  | PMarkContainer | PForwardParent _ | PNotifyKeyArg | PNotifyKeyFromArrayData | PNotifyKeyFromBuilt => true
+  | _ => false
+  end.
+Definition kf_ok (m : meth) (p : prim) : bool :=
+  negb (needs_class p) && MS_pok m p && match p with PChangeRule r' => negb (rule_is_marker r') | _ => true end.
+Definition is_markobj (p : prim) : bool := match p with PMarkObject _ => true | _ => false end.
+Fixpoint strip (cell : list prim) : list prim :=
+  match cell with
+  | p :: rest => if is_guardp p then strip rest else cell
+  | [] => []
+  end.
+(* the statements that need to know the class of the rule in force come first in their cell (argument checks
+   aside), in a cell of the right kind of rule *)
+Definition cell_shape_ok (r : rule) (m : meth) (cell : list prim) : bool :=
+  match strip cell with
+  | [] => true
+  | h :: tl =>
+      forallb (kf_ok m) tl && (rule_is_marker r || negb (existsb is_markobj (h :: tl))) &&
+      match h with
+      | PMarkContainer => rule_is_marker r
+      | PForwardParent m' => rule_is_marker r && fpm m' && MS_pok m h
+      | PNotifyKeyArg | PNotifyKeyFromArrayData | PNotifyKeyFromBuilt => negb (rule_is_marker r) && negb (fpm m)
+      | _ => kf_ok m h
+      end
+  end.
+Lemma shape_table : table_forall (fun r m cell => has_reject cell || cell_shape_ok r m cell) = true.
+Proof. vm_compute. reflexivity. Qed.
+
+Lemma guard_id cfg call self m a p c c' : is_guardp p = true -> exec_prim cfg call self m a p c = Some c' -> c' = c.
+Proof. intros G E. destruct p; try discriminate G; cbn [exec_prim] in E; inv_some; reflexivity. Qed.
+
+Section MarkerIds.
+  Variable S : bytes -> Prop.
+
+  Definition SM (c : rctx) : Prop := S (marker_id c) \/ count_cl KMarker (crules c) = O.
+  Definition MSet (c : rctx) : Prop := forall id, In id (akeys (marked c)) -> S id.
+  Definition tagged (e : entry) : Prop := rclass_of (e_rule e) = KMarker -> exists id, e_keys e = [NkString id] /\ S id.
+  Definition Tagged (c : rctx) : Prop := tagged (cur c) /\ Forall tagged (stack c).
+  Definition MI (c : rctx) : Prop := SM c /\ MSet c /\ Tagged c.
+  Definition MI_Ra (m : meth) (a : args) : Prop := m = MMarker -> S (a_id a).
+  Definition MIPost (c c' : rctx) : Prop := MI c' /\ (S (marker_id c) -> S (marker_id c')).
+
+  Lemma MI_le c c' :
+    marker_id c' = marker_id c -> marked c' = marked c ->
+    (count_cl KMarker (crules c') <= count_cl KMarker (crules c))%nat -> Tagged c' -> MI c -> MIPost c c'.
+  Proof.
+    unfold MIPost, MI, SM, MSet. intros E1 E2 L T [H [M _]]. rewrite E1, E2.
+    split; [|auto]. split; [|split; [exact M | exact T]]. destruct H as [H|H]; [left; exact H | right; lia].
+  Qed.
+
+  Lemma MIPost_trans c1 c2 c3 : MIPost c1 c2 -> MIPost c2 c3 -> MIPost c1 c3.
+  Proof. unfold MIPost. intros [_ H1] [M H2]. auto. Qed.
+
+  Lemma marker_cur_SM c : rclass_of (e_rule (cur c)) = KMarker -> SM c -> S (marker_id c).
+  Proof.
+    intros K [H|H]; [exact H|]. exfalso. unfold crules in H. rewrite count_cl_cons, K in H. cbn in H. lia.
+  Qed.
+
+  Lemma mark_object_MI cfg dt c c' : mark_object cfg dt c = Some c' -> S (marker_id c) -> MI c -> MIPost c c'.
+  Proof.
+    unfold mark_object. intros H Sm [A [M T]]. unfold MIPost, MI.
+    inv_some; rsimpl; (split; [|auto]); (split; [exact A|]); (split; [|exact T]);
+      intros id I; apply akeys_aset in I as [->|I]; auto.
+  Qed.
+
+  Lemma local_reference_MI id al c c' : local_reference id al c = Some c' -> MI c -> MIPost c c'.
+  Proof.
+    unfold local_reference. intros H B. inv_some; [split; [exact B | auto]|]. unfold MIPost. split; [exact B | auto].
+  Qed.
+
+  Definition HC (call : rule -> meth -> args -> rctx -> option rctx) : Prop :=
+    forall r m a c c', call r m a c = Some c' -> StartOK r m c -> MI_Ra m a -> MI c -> MIPost c c'.
+
+  Ltac count_tac :=
+    unfold crules, srules; rsimpl; cbn [map];
+    repeat match goal with H : stack _ = _ :: _ |- _ => rewrite H end; cbn [map];
+    rewrite ?count_cl_cons; cbn [rclass_of rclass_eqb];
+    repeat match goal with |- context [if ?b then _ else _] => destruct b end; lia.
+
+  Ltac tagged_tac T1 T2 :=
+    unfold Tagged, tagged; rsimpl;
+    first
+      [ split; [exact T1 | exact T2]
+      | split; [(let X := fresh "X" in intro X; discriminate X) | first [exact T2 | constructor; [exact T1 | exact T2]]]
+      | match goal with St : stack _ = _ :: _ |- _ => rewrite St in T2; inversion T2; subst; split; assumption end ].
+
+  Section Calls.
+    Variable cfg : rcfg.
+    Variable call : rule -> meth -> args -> rctx -> option rctx.
+    Hypothesis Hcall : HC call.
+
+    Lemma call_cur_MI m a c c' :
+      call (e_rule (cur c)) m a c = Some c' -> MI_Ra m a -> MI c -> MIPost c c'.
+    Proof. intros H Ra B. exact (Hcall _ _ _ _ _ H (or_introl eq_refl) Ra B). Qed.
+
+    Lemma ecl_MI notify c c' : end_container_like call notify c = Some c' -> MI c -> MIPost c c'.
+    Proof.
+      unfold end_container_like, unstack_rule. intros H B. pose proof B as [A [M [T1 T2]]].
+      destruct (stack c) as [|e s] eqn:St; [discriminate|].
+      assert (MIPost c (set_cur (set_stack c s) e)) as P2.
+      { apply MI_le; [reflexivity | reflexivity | count_tac | | exact B].
+        unfold Tagged; rsimpl. inversion T2; subst. split; assumption. }
+      destruct notify; [|inv_some; exact P2].
+      eapply MIPost_trans; [exact P2|]. eapply call_cur_MI; [exact H | intro X; discriminate X | exact (proj1 P2)].
+    Qed.
+
+    Lemma setrule_MI c r' : rule_is_marker r' = false -> MI c -> MIPost c (set_rule c r').
+    Proof.
+      intros R B. pose proof B as [A [M [T1 T2]]]. unfold rule_is_marker in R.
+      apply MI_le; [reflexivity | reflexivity | | | exact B].
+      - unfold crules, srules; rsimpl. rewrite !count_cl_cons, R. destruct (rclass_eqb _ KMarker); lia.
+      - unfold Tagged, tagged; rsimpl. split; [|exact T2]. intro X. rewrite X in R. discriminate R.
+    Qed.
+
+    Lemma tea_MI more c c2 b : try_end_array call more c = Some (c2, b) -> MI c -> MIPost c c2.
+    Proof.
+      unfold try_end_array. intros H B. destruct more; [inv_some; split; [exact B | auto]|].
+      destruct (end_container_like call true c) as [c1|] eqn:E; [|discriminate]. inv_some. eapply ecl_MI; eauto.
+    Qed.
+
+    Lemma end_chunk_MI sr c c' : end_chunk call sr c = Some c' -> MI c -> MIPost c c'.
+    Proof.
+      unfold end_chunk. intros H B. destruct (sr && negb (Nat.eqb (length (utf8_rem c)) 0)); [discriminate|].
+      destruct (try_end_array call (more_chunks c) c) as [[c2 b]|] eqn:T; [|discriminate].
+      pose proof (tea_MI _ _ _ _ T B) as P2. destruct b; inv_some; [exact P2|].
+      eapply MIPost_trans; [exact P2|]. apply setrule_MI; [destruct sr; reflexivity | exact (proj1 P2)].
+    Qed.
+
+    Lemma rule_chunk_MI sr n more c c' : rule_chunk cfg call sr n more c = Some c' -> MI c -> MIPost c c'.
+    Proof.
+      unfold rule_chunk. intros H B. destruct (n =? 0).
+      - destruct (try_end_array call more c) as [[c2 b]|] eqn:T; [|discriminate]. inv_some. eapply tea_MI; eauto.
+      - destruct sr; inv_some; (apply (setrule_MI (set_array _ _ _ _ _ _ _ _ _)); [reflexivity | exact B]).
+    Qed.
+
+    Lemma chunk_data_MI sr d c c' : chunk_data call sr d c = Some c' -> MI c -> MIPost c c'.
+    Proof.
+      unfold chunk_data. intros H B.
+      assert (forall c1, MI c1 -> marker_id c1 = marker_id c ->
+                (if chunk_actual c + blen d =? chunk_expected c then end_chunk call sr c1 else Some c1) = Some c' -> MIPost c c') as Aux.
+      { clear H. intros c1 B1 E1 H1. destruct (chunk_actual c + blen d =? chunk_expected c).
+        - pose proof (end_chunk_MI _ _ _ H1 B1) as [X Y]. split; [exact X | rewrite <- E1; exact Y].
+        - inv_some. split; [exact B1 | rewrite <- E1; auto]. }
+      destruct (chunk_expected c <? chunk_actual c + blen d); [discriminate|]. destruct sr.
+      - destruct (stream_string_data (utf8_rem c) d) as [[[f n] r]|]; [|discriminate].
+        destruct (validate_with (arr_validator c) f && validate_with (arr_validator c) n); [|discriminate].
+        eapply Aux; [| |exact H]; [exact B | reflexivity].
+      - eapply Aux; [| |exact H]; [exact B | reflexivity].
+    Qed.
+
+    Lemma kf_prim self m a p c c' :
+      kf_ok m p = true -> MI_Ra m a -> (is_markobj p = true -> S (marker_id c)) ->
+      exec_prim cfg call self m a p c = Some c' -> MI c -> MIPost c c'.
+    Proof.
+      intros K Ra Mo E B. unfold kf_ok in K.
+      apply andb_true_iff in K as [K Kr]. apply andb_true_iff in K as [Kn Kp]. pose proof B as [A [M [T1 T2]]].
+      destruct p; try discriminate Kn; cbn [MS_pok] in Kp; cbn [exec_prim] in E.
+      all: try solve [inv_some].
+      all: try solve [inv_some; split; [exact B | intro X; exact X]].
+      all: try solve [inv_some; eapply mark_object_MI; [eassumption | apply Mo; reflexivity | exact B]].
+      all: try solve [eapply local_reference_MI; eassumption].
+      all: try solve [unfold begin_container, begin_array_any in E; inv_some;
+                      apply MI_le; [reflexivity | reflexivity | count_tac | tagged_tac T1 T2 | exact B]].
+      all: try solve [eapply rule_chunk_MI; eauto | eapply chunk_data_MI; eauto].
+      - (* PChangeRule *) inv_some. apply setrule_MI; [apply negb_true_iff; exact Kr | exact B].
+      - (* PBeginRecordType *)
+        remember (stack c) as st eqn:St in E. destruct st; [|discriminate E]. clear St.
+        unfold begin_container in E. inv_some.
+        apply MI_le; [reflexivity | reflexivity | count_tac | tagged_tac T1 T2 | exact B].
+      - (* PEndContainer *)
+        unfold end_container in E. destruct (depth c =? 0); [discriminate E|].
+        destruct (match e_expected (cur c) with Some x => negb (e_count (cur c) =? x) | None => false end); [discriminate E|].
+        destruct (e_dtype (cur c) =? DT_RecordType).
+        + destruct (alookup (rectype_name c) (rectypes c)); [discriminate E|]. exact (ecl_MI _ _ _ E B).
+        + exact (ecl_MI _ _ _ E B).
+      - (* PBeginMarkerAnyType *)
+        inv_some. destruct m; try discriminate Kp. specialize (Ra eq_refl).
+        unfold MIPost, MI, SM, MSet, Tagged, tagged. rsimpl.
+        split; [|intros _; exact Ra]. split; [left; exact Ra|]. split; [exact M|].
+        split; [intros _; eexists; split; [reflexivity | exact Ra] | constructor; [exact T1 | exact T2]].
+      - (* PBeginMarkerKeyable *)
+        inv_some. destruct m; try discriminate Kp. specialize (Ra eq_refl).
+        unfold MIPost, MI, SM, MSet, Tagged, tagged. rsimpl.
+        split; [|intros _; exact Ra]. split; [left; exact Ra|]. split; [exact M|].
+        split; [intros _; eexists; split; [reflexivity | exact Ra] | constructor; [exact T1 | exact T2]].
+      - unfold begin_array_any in E; inv_some; (apply MI_le; [reflexivity | reflexivity | count_tac | | exact B]);
+          unfold Tagged, tagged; rsimpl; (split; [intro X; discriminate X | constructor; [exact T1 | exact T2]]).
+      - unfold begin_array_any in E; inv_some; (apply MI_le; [reflexivity | reflexivity | count_tac | | exact B]);
+          unfold Tagged, tagged; rsimpl; (split; [intro X; discriminate X | constructor; [exact T1 | exact T2]]).
+      - (* PUnstackRule *)
+        assert (end_container_like call false c = Some c') as E' by (unfold end_container_like; rewrite E; reflexivity).
+        exact (ecl_MI _ _ _ E' B).
+      - (* PForwardCurrent *)
+        eapply call_cur_MI; [exact E | | exact B]. intro X. subst. cbn in Kp. destruct m; try discriminate Kp. exact (Ra eq_refl).
+      - (* PForwardCurrentKeyableEmptyKey *)
+        eapply call_cur_MI; [exact E | intro X; discriminate X | exact B].
+      - (* PMarkObject *)
+        destruct s; inv_some; eapply mark_object_MI; eauto.
+    Qed.
+
+    (* the rest of a cell *)
+    Lemma tl_run self m a tl : forall c c',
+      forallb (kf_ok m) tl = true -> MI_Ra m a -> (S (marker_id c) \/ existsb is_markobj tl = false) ->
+      exec_prims cfg call self m a tl c = Some c' -> MI c -> MIPost c c'.
+    Proof.
+      induction tl as [|p tl IH]; intros c c' K Ra Mo E B; cbn [exec_prims forallb existsb] in *.
+      - inv_some. split; [exact B | auto].
+      - apply andb_true_iff in K as [Kp K]. destruct (exec_prim cfg call self m a p c) as [c1|] eqn:E1; [|discriminate].
+        assert (MIPost c c1) as P1.
+        { eapply kf_prim; eauto. intro X. destruct Mo as [Mo|Mo]; [exact Mo|]. rewrite X in Mo. discriminate Mo. }
+        eapply MIPost_trans; [exact P1|]. apply IH; auto; [|exact (proj1 P1)].
+        destruct Mo as [Mo|Mo]; [left; exact (proj2 P1 Mo) | right; apply orb_false_iff in Mo; tauto].
+    Qed.
+
+    Lemma notify_key_MI k c c' :
+      notify_key k c = Some c' -> rclass_of (e_rule (cur c)) <> KMarker -> MI c -> MIPost c c'.
+    Proof.
+      unfold notify_key. intros H Nm B. pose proof B as [A [M [T1 T2]]]. inv_some.
+      apply MI_le; [reflexivity | reflexivity | unfold crules, srules; rsimpl; lia | | exact B].
+      unfold Tagged, tagged; rsimpl. split; [intro X; contradiction | exact T2].
+    Qed.
+
+    Lemma cell_MI r m a cell c c' :
+      cell_shape_ok r m cell = true -> forallb (MS_pok m) cell = true -> StartOK r m c -> MI_Ra m a -> MI c ->
+      exec_prims cfg call r m a cell c = Some c' -> MIPost c c'.
+    Proof.
+      unfold cell_shape_ok. intros Sh Pk St Ra B E.
+      (* argument checks leave the context alone *)
+      assert (exec_prims cfg call r m a (strip cell) c = Some c' /\ forallb (MS_pok m) (strip cell) = true) as [E' Pk'].
+      { clear Sh. revert E Pk. induction cell as [|p ps IH]; intros E Pk; cbn [strip]; [auto|].
+        destruct (is_guardp p) eqn:G; [|auto]. cbn [exec_prims forallb] in E, Pk. apply andb_true_iff in Pk as [_ Pk].
+        destruct (exec_prim cfg call r m a p c) as [c1|] eqn:E1; [|discriminate].
+        rewrite (guard_id _ _ _ _ _ _ _ _ G E1) in E. auto. }
+      clear E Pk. destruct (strip cell) as [|h tl]; [cbn in E'; inv_some; split; [exact B | auto]|].
+      apply andb_true_iff in Sh as [Sh Hh]. apply andb_true_iff in Sh as [Ktl Mo].
+      cbn [exec_prims forallb] in E', Pk'. apply andb_true_iff in Pk' as [Ph Ptl].
+      destruct (exec_prim cfg call r m a h c) as [c1|] eqn:E1; [|discriminate].
+      pose proof B as [A [M [T1 T2]]].
+      (* the class of the rule in force *)
+      assert (rule_is_marker r = true -> rclass_of (e_rule (cur c)) = KMarker) as CM.
+      { intro R. destruct St as [St|[St _]]; [rewrite St; apply rclass_eqb_eq; exact R | exact St]. }
+      assert (rule_is_marker r = false -> fpm m = false -> rclass_of (e_rule (cur c)) <> KMarker) as CN.
+      { intros R F. destruct St as [St|[_ St]]; [|congruence]. rewrite St. intro X. unfold rule_is_marker in R. rewrite X in R. discriminate R. }
+      assert (rclass_of (e_rule (cur c)) = KMarker -> S (marker_id c)) as SMc by (intro X; eapply marker_cur_SM; eauto).
+      (* markobj statements only where the marker id is known *)
+      assert (S (marker_id c) \/ existsb is_markobj (h :: tl) = false) as Mo'.
+      { apply orb_true_iff in Mo as [Mo|Mo]; [left; auto | right; apply negb_true_iff; exact Mo]. }
+      assert (MIPost c c1 -> MIPost c c') as Rest.
+      { intro P1. eapply MIPost_trans; [exact P1|]. eapply tl_run; eauto; [|exact (proj1 P1)].
+        destruct Mo' as [Mo'|Mo']; [left; exact (proj2 P1 Mo') | right; cbn [existsb] in Mo'; apply orb_false_iff in Mo'; tauto]. }
+      assert (kf_ok m h = true -> MIPost c c') as KF.
+      { intro Kh. apply Rest. eapply kf_prim; eauto. intro X. destruct Mo' as [Mo'|Mo']; [exact Mo'|].
+        cbn [existsb] in Mo'. rewrite X in Mo'. discriminate Mo'. }
+      destruct h; try (apply KF; exact Hh).
+      - (* PNotifyKeyArg *)
+        apply andb_true_iff in Hh as [R F]. apply negb_true_iff in R, F. apply Rest. cbn [exec_prim] in E1.
+        destruct (a_key a); [|discriminate]. eapply notify_key_MI; eauto.
+      - (* PNotifyKeyFromArrayData *)
+        apply andb_true_iff in Hh as [R F]. apply negb_true_iff in R, F. apply Rest. cbn [exec_prim] in E1. unfold key_from_array in E1.
+        destruct (a_arrty a =? AT_String); [eapply notify_key_MI; eauto|].
+        destruct (a_arrty a =? AT_ResourceID); [eapply notify_key_MI; eauto | inv_some; split; [exact B | auto]].
+      - (* PNotifyKeyFromBuilt *)
+        apply andb_true_iff in Hh as [R F]. apply negb_true_iff in R, F. apply Rest. cbn [exec_prim] in E1.
+        destruct (a_dtype a =? DT_String); [eapply notify_key_MI; eauto|].
+        destruct (a_dtype a =? DT_ResourceID); [eapply notify_key_MI; eauto | inv_some; split; [exact B | auto]].
+      - (* PForwardParent *)
+        apply andb_true_iff in Hh as [Hh Pm]. apply andb_true_iff in Hh as [R F]. apply Rest. cbn [exec_prim] in E1.
+        destruct (stack c) as [|e s] eqn:Stk; [discriminate|].
+        apply (Hcall _ _ _ _ _ E1); [right; auto | | exact B].
+        intro X. subst. cbn in Pm. destruct m; try discriminate Pm. exact (Ra eq_refl).
+      - (* PMarkContainer *)
+        apply Rest. cbn [exec_prim] in E1. specialize (CM Hh). destruct (T1 CM) as [id [Kid Sid]].
+        unfold entry_marker_id in E1. rewrite Kid in E1.
+        pose proof (mark_object_MI cfg (a_dtype a) (set_markers c id (marked c) (fwd c) (refcount c)) c1 E1 Sid) as X.
+        destruct X as [X1 X2]; [split; [|split; [exact M | split; [exact T1 | exact T2]]]; left; exact Sid|].
+        split; [exact X1 | intros _; exact (X2 Sid)].
+    Qed.
+  End Calls.
+
+  Theorem call_rule_MI cfg f r m a c c' :
+    call_rule f cfg r m a c = Some c' -> StartOK r m c -> MI_Ra m a -> MI c -> MIPost c c'.
+  Proof.
+    apply (call_rule_ind_gen cfg (fun r m a c c' => StartOK r m c -> MI_Ra m a -> MI c -> MIPost c c')).
+    intros call Hcall r0 m0 a0 c0 c0' H St Ra B.
+    pose proof (table_forall_spec _ shape_table r0 m0) as T1. cbn beta in T1.
+    apply orb_true_iff in T1 as [T1|T1]; [rewrite exec_prims_reject in H by exact T1; discriminate|].
+    pose proof (table_forall_spec _ MS_table r0 m0) as T2. cbn beta in T2.
+    apply orb_true_iff in T2 as [T2|T2]; [rewrite exec_prims_reject in H by exact T2; discriminate|].
+    eapply cell_MI; eauto.
+  Qed.
+
+  (* events *)
+  Lemma plan_step_MI cfg pl c c' : plan_step cfg pl c = Some c' -> MI_Ra (p_meth pl) (p_args pl) -> MI c -> MI c'.
+  Proof.
+    unfold plan_step, call_current. intros H Ra B. destruct (p_nno pl) as [real|].
+    - destruct (notify_new_object cfg real c) as [c1|] eqn:N; [|discriminate].
+      assert (MI c1) as B1.
+      { unfold notify_new_object in N. pose proof B as [A [M [T1 T2]]].
+        assert (forall c2, marker_id c2 = marker_id c -> marked c2 = marked c -> stack c2 = stack c ->
+                           e_rule (cur c2) = e_rule (cur c) -> e_keys (cur c2) = e_keys (cur c) -> MI c2) as Fr.
+        { intros c2 E1 E2 E3 E4 E5. unfold MI, SM, MSet, Tagged, tagged, crules, srules in *. rewrite E1, E2, E3, E4, E5. auto. }
+        inv_some; apply Fr; reflexivity. }
+      exact (proj1 (call_rule_MI _ _ _ _ _ _ _ H (or_introl eq_refl) Ra B1)).
+    - exact (proj1 (call_rule_MI _ _ _ _ _ _ _ H (or_introl eq_refl) Ra B)).
+  Qed.
+
+  Lemma plan_marker_id cfg e pl : ev_plan cfg e = Some pl -> p_meth pl = MMarker -> e = EMarker (a_id (p_args pl)).
+  Proof.
     destruct e as [| |v| |m t| |b| | |n|n|z|[z|]|bits|[bf|]|[| | |]|[[| | |]|]|s|b|s| | |id|id| | | |id|id|t cnt d|t d|mt d|ct d|ct d|t|mt|t ct|n m|d];
       cbn [ev_plan]; intros P M;
-      repeat match goal with H : (if ?b then _ else _) = Some _ |- _ => destruct b; try discriminate H end;
-      unfold mkplan in P; inv_some; try discriminate M. cbn. apply Hm. reflexivity. }
-  unfold plan_step, call_current in St. destruct (p_nno pl) as [real|].
-  - destruct (notify_new_object cfg real c) as [c1|] eqn:N; [|discriminate].
-    apply nno_registries in N as [N1 [N2 [N3 [N4 N5]]]].
-    eapply MS_call; eauto. eapply MS_frame; eauto.
-  - eapply MS_call; eauto.
+      repeat match goal with H : (if ?b then _ else _) = Some _ |- _ => destruct b eqn:?; try discriminate H end;
+      unfold mkplan in P; inv_some; try discriminate M. reflexivity.
+  Qed.
+
+  Lemma steps_MI cfg l : forall c c',
+    steps cfg c l = Some c' -> (forall id, In (EMarker id) l -> S id) -> MI c -> MI c'.
+  Proof.
+    induction l as [|e l IH]; intros c c' H Hs B; cbn [steps] in H; [inv_some; exact B|].
+    destruct (rstep cfg c e) as [[c1 o]|] eqn:R; [|discriminate].
+    apply (IH c1 c' H); [intros id I; apply Hs; right; exact I|].
+    rewrite rstep_plan in R. destruct (ev_plan cfg e) as [pl|] eqn:P; [|discriminate].
+    destruct (plan_step cfg pl c) as [c2|] eqn:St; [|discriminate]. inv_some.
+    eapply plan_step_MI; eauto. intro Mm. apply Hs. left. exact (plan_marker_id _ _ _ P Mm).
+  Qed.
+End MarkerIds.
+
+Lemma MI_init S : MI S init_rctx.
+Proof.
+  unfold MI, SM, MSet, Tagged, tagged. split; [right; reflexivity|]. split; [intros id []|]. split; [intro X; discriminate X | constructor].
 Qed.
 
-Lemma steps_MS (S : bytes -> Prop) cfg l : forall c c',
-  S [] -> steps cfg c l = Some c' -> (forall id, In (EMarker id) l -> S id) -> MS S c -> MS S c'.
+(* ------------------------------------------------------------------------- *)
+(* C13: the statements                                                        *)
+(* ------------------------------------------------------------------------- *)
+(* every registered id is the (non-empty) id of a marker event *)
+Theorem marked_ids_are_markers cfg es c id :
+  state_after cfg es = Some c -> In id (akeys (marked c)) -> In (EMarker id) es.
 Proof.
-  induction l as [|e l IH]; intros c c' S0 H Hm B; cbn [steps] in H; [inv_some; exact B|].
-  destruct (rstep cfg c e) as [[c1 o]|] eqn:R; [|discriminate].
-  apply (IH c1 c' S0 H); [intros id I; apply Hm; right; exact I|].
-  eapply rstep_MS; eauto. intros id ->. apply Hm. left. reflexivity.
+  rewrite state_after_steps. intros H I.
+  assert (MI (fun id => In (EMarker id) es) c) as [_ [M _]].
+  { apply (steps_MI _ cfg es init_rctx c H); [auto | apply MI_init]. }
+  exact (M id I).
 Qed.
 
-Theorem marked_ids_are_marker_ids cfg es c id :
-  steps cfg init_rctx es = Some c -> In id (akeys (marked c)) -> id = [] \/ In (EMarker id) es.
+Lemma marker_ids_length es : length (marker_ids es) = N.to_nat (marker_usage es).
 Proof.
-  intros H I.
-  assert (MS (fun id => id = [] \/ In (EMarker id) es) c) as [M _].
-  { apply (steps_MS _ cfg es init_rctx c);
-      [left; reflexivity | exact H | intros x Hx; right; exact Hx | split; [intros x [] | left; reflexivity]]. }
-  auto.
+  induction es as [|e es IH]; [reflexivity|]. unfold marker_ids, marker_usage in *. cbn [flat_map count_if].
+  rewrite app_length, IH. destruct e; cbn [length is_marker]; lia.
 Qed.
 
 (* every reference seen so far is marked or pending *)
@@ -576,44 +871,64 @@ Qed.
 Theorem refs_have_markers cfg es id :
   accepts_document cfg es = true -> In (ERefLocal id) es -> In (EMarker id) es.
 Proof.
-  intros A I. pose proof (accepts_document_accepts _ _ A) as A'.
-  apply accepts_document_steps in A as [c [H T]].
+  intros A I. apply accepts_document_steps in A as [c [H T]].
   pose proof (document_no_pending _ _ _ H T) as F.
   destruct (steps_refs_known _ _ _ H) as [_ Hr]. destruct (Hr id I) as [X|X]; [|rewrite F in X; destruct X].
-  destruct (marked_ids_are_marker_ids _ _ _ _ H X) as [->|Y]; [|exact Y].
-  exfalso. apply (validate_identifier_nonempty cfg []); [|reflexivity].
-  eapply accepted_identifiers_valid; eauto.
+  eapply marked_ids_are_markers; [apply state_after_steps; exact H | exact X].
 Qed.
 
-(* ... and the registry it ends with has pairwise distinct ids, as many as LocalReferenceCount, no pending
-   forward reference *)
-Theorem document_registry cfg es c :
+(* the registries after an accepted list *)
+Theorem registry_invariants cfg es c :
   state_after cfg es = Some c ->
   NoDup (akeys (marked c)) /\ refcount c = N.of_nat (length (marked c)) /\
-  (forall id, In id (akeys (marked c)) -> id = [] \/ In (EMarker id) es) /\
+  (forall id, In id (akeys (marked c)) -> In (EMarker id) es) /\
   (forall id, In id (akeys (fwd c)) -> alookup id (marked c) = None) /\
   (forall id, In (ERefLocal id) es -> In id (akeys (marked c)) \/ In id (akeys (fwd c))) /\
-  (e_rule (cur c) = RTerminal -> fwd c = []).
+  (e_rule (cur c) = RTerminal -> fwd c = []) /\
+  (Z.of_N (refcount c) + Z.of_nat (count_cl KMarker (e_rule (cur c) :: srules c)) = Z.of_N (marker_usage es))%Z.
 Proof.
-  rewrite state_after_steps. intro H. destruct (steps_refs_known _ _ _ H) as [[M1 [M2 [M3 [M4 M5]]]] Hr].
+  intro H0. pose proof H0 as H. rewrite state_after_steps in H.
+  destruct (steps_refs_known _ _ _ H) as [[M1 [M2 [M3 [M4 M5]]]] Hr].
   repeat split; auto.
-  - intros id I. eapply marked_ids_are_marker_ids; eauto.
+  - intros id I. eapply marked_ids_are_markers; eauto.
   - intro T. eapply document_no_pending; eauto.
+  - apply (markers_accounted cfg). exact H0.
 Qed.
 
-(* if every marker got registered, the marker ids of the document are pairwise distinct *)
-Theorem markers_distinct_if_registered cfg es c :
-  state_after cfg es = Some c -> ~ In [] (akeys (marked c)) -> refcount c = marker_usage es -> NoDup (marker_ids es).
+(* C13: the marker ids of a list are pairwise distinct as soon as every marker is registered - in particular
+   at document level, hence in every accepted complete document *)
+Theorem markers_distinct_at_top cfg es c :
+  state_after cfg es = Some c -> rclass_of (e_rule (cur c)) = KTop -> NoDup (marker_ids es).
 Proof.
-  intros H N0 RC. destruct (document_registry _ _ _ H) as [M1 [M2 [M3 _]]].
+  intros H T. destruct (registry_invariants _ _ _ H) as [M1 [M2 [M3 _]]].
+  pose proof (document_markers_registered _ _ _ H T) as RC.
   apply (@NoDup_incl_NoDup _ (akeys (marked c))); [exact M1 | |].
-  - unfold akeys. rewrite map_length.
-    assert (length (marker_ids es) = N.to_nat (marker_usage es)) as L.
-    { clear. induction es as [|e es IH]; [reflexivity|]. unfold marker_ids, marker_usage in *. cbn [flat_map count_if].
-      rewrite app_length, IH. destruct e; cbn [length is_marker]; lia. }
-    lia.
-  - intros id I. destruct (M3 id I) as [->|X]; [contradiction|].
-    unfold marker_ids. apply in_flat_map. exists (EMarker id). split; [exact X | left; reflexivity].
+  - unfold akeys. rewrite map_length, marker_ids_length. lia.
+  - intros id I. unfold marker_ids. apply in_flat_map. exists (EMarker id). split; [auto | left; reflexivity].
+Qed.
+
+Theorem document_markers_distinct cfg es : accepts_document cfg es = true -> NoDup (marker_ids es).
+Proof.
+  rewrite accepts_document_steps. intros [c [H T]].
+  apply (markers_distinct_at_top cfg es c); [apply state_after_steps; exact H | rewrite T; reflexivity].
+Qed.
+
+(* ... and every marker of an accepted complete document is registered, with the identifiers of the markers as
+   the registered ids *)
+Theorem document_markers_all_registered cfg es c :
+  state_after cfg es = Some c -> e_rule (cur c) = RTerminal ->
+  refcount c = marker_usage es /\ forall id, In (EMarker id) es <-> In id (akeys (marked c)).
+Proof.
+  intros H T. assert (rclass_of (e_rule (cur c)) = KTop) as K by (rewrite T; reflexivity).
+  pose proof (document_markers_registered _ _ _ H K) as RC. split; [exact RC|].
+  destruct (registry_invariants _ _ _ H) as [M1 [M2 [M3 _]]].
+  intro id. split; [|apply M3]. intro I.
+  (* a duplicate-free list included in another of the same length has the same elements *)
+  assert (In id (marker_ids es)) as I' by (unfold marker_ids; apply in_flat_map; exists (EMarker id); split; [exact I | left; reflexivity]).
+  assert (incl (akeys (marked c)) (marker_ids es)) as Inc.
+  { intros x X. unfold marker_ids. apply in_flat_map. exists (EMarker x). split; [auto | left; reflexivity]. }
+  assert (length (marker_ids es) <= length (akeys (marked c)))%nat as L by (unfold akeys; rewrite map_length, marker_ids_length; lia).
+  exact (NoDup_length_incl M1 L Inc id I').
 Qed.
 
 (* a reference in map-key position resolves to a keyable type *)
@@ -711,38 +1026,12 @@ Proof.
     exact (IH Pd c2 (K2 eq_refl) W2 H).
 Qed.
 
+
 (* ------------------------------------------------------------------------- *)
 (* Findings (behaviour of the current code, replayable on the implementation)  *)
 (* ------------------------------------------------------------------------- *)
-(* 1. A marker on a chunked string in map-key position is never registered
-      (MarkedObjectKeyableRule.OnChildContainerEnded does not call MarkObject): the document is
-      accepted, the marker id is unknown afterwards, and the same id can be used again. *)
-Definition unregistered_marker_witness : list event :=
-  [EBeginDoc; EVersion 0; EMap; EMarker [97]; EArrayBegin AT_String; EArrayChunk 1 false; EArrayData [120]; ENull; EEnd; EEndDoc].
-Lemma marker_registered_refuted :
-  exists es id, accepts_document default_rcfg es = true /\ In (EMarker id) es /\ marked_type default_rcfg es id = None.
-Proof. exists unregistered_marker_witness, [97]. vm_compute. repeat split. auto 10. Qed.
-
-Definition duplicate_marker_witness : list event :=
-  [EBeginDoc; EVersion 0; EMap; EMarker [97]; EArrayBegin AT_String; EArrayChunk 1 false; EArrayData [120]; ENull;
-   EMarker [97]; EPosInt 1; ENull; EEnd; EEndDoc].
-Lemma marker_ids_distinct_refuted :
-  exists es, accepts_document default_rcfg es = true /\ ~ NoDup (marker_ids es).
-Proof.
-  exists duplicate_marker_witness. split; [vm_compute; reflexivity|].
-  cbn. intro H. inversion H as [|? ? N _]. apply N. left. reflexivity.
-Qed.
-
-(* 2. markerID is a single field: a marked container that contains another marker is registered under
-      the inner id when it ends, which is then a duplicate - the (well-formed) document is rejected at the
-      end of the outer container. *)
-Definition nested_marker_witness : list event :=
-  [EBeginDoc; EVersion 0; EMarker [97]; EList; EMarker [98]; EPosInt 1; EEnd; EEndDoc].
-Lemma nested_markers_rejected : rejected_at default_rcfg nested_marker_witness = Some 6.
-Proof. vm_compute. reflexivity. Qed.
-
-(* 3. Allow_Keyable contains the float type, so a reference to a marked float is accepted as a map key
-      (marker first, or reference first), although a float is rejected as a direct map key. *)
+(* Allow_Keyable contains the float type, so a reference to a marked float is accepted as a map key
+   (marker first, or reference first), although a float is rejected as a direct map key. *)
 Definition float_key_witness_backward : list event :=
   [EBeginDoc; EVersion 0; EList; EMarker [97]; EFloat 0; EMap; ERefLocal [97]; ENull; EEnd; EEnd; EEndDoc].
 Definition float_key_witness_forward : list event :=
@@ -755,193 +1044,16 @@ Lemma float_key_reference_accepted :
   accepts default_rcfg [EBeginDoc; EVersion 0; EMap; EFloat 0] = false.
 Proof. vm_compute. repeat split; discriminate. Qed.
 
-(* ------------------------------------------------------------------------- *)
-(* The empty initial markerID is never registered                             *)
-(* ------------------------------------------------------------------------- *)
-Definition crules (c : rctx) : list rule := e_rule (cur c) :: srules c.
-(* a marker id has been set, or no marker entry is open *)
-Definition NE (c : rctx) : Prop := marker_id c <> [] \/ count_cl KMarker (crules c) = O.
-Definition NM (c : rctx) : Prop := ~ In [] (akeys (marked c)).
-Definition NE_Ra (m : meth) (a : args) : Prop := m = MMarker -> a_id a <> [].
-
-Lemma count_cl_in r rs : In r rs -> rclass_of r = KMarker -> count_cl KMarker rs <> O.
-Proof.
-  induction rs as [|x rs IH]; intros I K; [destruct I|]; destruct I as [->|I]; rewrite count_cl_cons.
-  - rewrite K. cbn. lia.
-  - specialize (IH I K). lia.
-Qed.
-
-(* every statement keeps a non-empty marker id non-empty, and the registry free of the empty id *)
-Lemma nonempty_prim cfg call :
-  (forall r m a c c', NE_Ra m a -> call r m a c = Some c' -> In r (crules c) -> marker_id c <> [] -> NM c -> marker_id c' <> [] /\ NM c') ->
-  forall self m a p c c', NE_Ra m a -> MS_pok m p = true -> exec_prim cfg call self m a p c = Some c' ->
-  marker_id c <> [] -> NM c -> marker_id c' <> [] /\ NM c'.
-Proof.
-  intros Hcall self m a p c c' Ha Hp E.
-  assert (forall dt c0 c1, mark_object cfg dt c0 = Some c1 -> marker_id c0 <> [] -> NM c0 -> marker_id c1 <> [] /\ NM c1) as HM.
-  { unfold mark_object, NM. intros dt c0 c1 H B N. inv_some; rsimpl; (split; [exact B|]);
-      intro I; apply akeys_aset in I as [I|I]; auto. }
-  assert (forall id al c0 c1, local_reference id al c0 = Some c1 -> marker_id c0 <> [] -> NM c0 -> marker_id c1 <> [] /\ NM c1) as HL.
-  { unfold local_reference, NM. intros id al c0 c1 H B N. inv_some; rsimpl; auto. }
-  prim_cases_keep p E; intros B N; cbn [MS_pok] in Hp; rsimpl;
-    try (split; [exact B | exact N]);
-    try (eapply HM; eassumption); try (eapply HL; eassumption);
-    try match goal with
-    | H : call _ ?m' _ _ = Some _ |- _ =>
-        refine (Hcall _ _ _ _ _ _ H _ _ _);
-          [ unfold NE_Ra; cbn [a_id with_dtype no_args with_key]; first [ intro X; discriminate X | idtac ]
-          | unfold crules, srules; rsimpl; first [ left; reflexivity | right; match goal with S : stack _ = _ :: _ |- _ => rewrite S end; left; reflexivity ]
-          | exact B | exact N ]
-    end.
-  - destruct m; try discriminate Hp. split; [apply Ha; reflexivity | exact N].
-  - destruct m; try discriminate Hp. split; [apply Ha; reflexivity | exact N].
-  - unfold NE_Ra in *. intro X. subst. cbn in Hp. destruct m; try discriminate Hp. auto.
-  - unfold NE_Ra in *. intro X. subst. cbn in Hp. destruct m; try discriminate Hp. auto.
-Qed.
-
-(* statements allowed in cells of rules that are not marker rules *)
-Definition modeB_ok (p : prim) : bool :=
-  match p with
-  | PMarkObject _ | PForwardParent _ => false
-  | PChangeRule r' => negb (rclass_eqb (rclass_of r') KMarker)
-  | _ => true
-  end.
-
-Lemma NE_le c c' :
-  marker_id c' = marker_id c -> (count_cl KMarker (crules c') <= count_cl KMarker (crules c))%nat -> NE c -> NE c'.
-Proof. unfold NE. intros -> L [H|H]; [left; exact H | right; lia]. Qed.
-
-Ltac count_tac :=
-  unfold crules, srules; rsimpl; cbn [map];
-  repeat match goal with H : stack _ = _ :: _ |- _ => rewrite H end; cbn [map];
-  rewrite ?count_cl_cons; cbn [rclass_of rclass_eqb];
-  repeat match goal with |- context [if ?b then _ else _] => destruct b end; lia.
-
-Lemma modeB_prim cfg call :
-  (forall r m a c c', call r m a c = Some c' -> In r (crules c) -> NE_Ra m a -> NE c -> NM c -> NE c' /\ NM c') ->
-  forall self m a p c c', NE_Ra m a -> MS_pok m p = true -> modeB_ok p = true ->
-    exec_prim cfg call self m a p c = Some c' -> NE c -> NM c -> NE c' /\ NM c'.
-Proof.
-  intros Hcall self m a p c c' Ha Hp Hb E.
-  assert (forall id al c0 c1, local_reference id al c0 = Some c1 -> NE c0 -> NM c0 -> NE c1 /\ NM c1) as HL.
-  { unfold local_reference. intros id al c0 c1 H B N. inv_some; [auto|]. split; [|exact N].
-    eapply NE_le; [| |exact B]; [reflexivity | unfold crules, srules; rsimpl; lia]. }
-  prim_cases_keep p E; intros B N; cbn [MS_pok modeB_ok] in Hp, Hb; try discriminate Hb;
-    try (eapply HL; eassumption);
-    try (split; [eapply NE_le; [| |exact B]; [reflexivity | count_tac] | exact N]; fail);
-    try match goal with
-    | H : call _ ?m' _ ?c2 = Some _ |- _ =>
-        refine (Hcall _ _ _ _ _ H _ _ _ _);
-          [ unfold crules, srules; rsimpl; left; reflexivity
-          | unfold NE_Ra; cbn [a_id with_dtype no_args with_key]; first [ intro X; discriminate X | idtac ]
-          | eapply NE_le; [| |exact B]; [reflexivity | count_tac]
-          | exact N ]
-    end.
-  - destruct m; try discriminate Hp. split; [left; rsimpl; apply Ha; reflexivity | exact N].
-  - destruct m; try discriminate Hp. split; [left; rsimpl; apply Ha; reflexivity | exact N].
-  - intro X. subst. cbn in Hp. destruct m; try discriminate Hp. apply Ha. reflexivity.
-Qed.
-
-Definition rule_is_marker (r : rule) : bool := rclass_eqb (rclass_of r) KMarker.
-Lemma modeB_table :
-  table_forall (fun r _ cell => has_reject cell || rule_is_marker r || forallb modeB_ok cell) = true.
-Proof. vm_compute. reflexivity. Qed.
-
-Definition NEPost (r : rule) (m : meth) (a : args) (c c' : rctx) : Prop :=
-  In r (crules c) -> NE_Ra m a -> NE c -> NM c -> NE c' /\ NM c' /\ (marker_id c <> [] -> marker_id c' <> []).
-
-Theorem call_rule_nonempty cfg f r m a c c' : call_rule f cfg r m a c = Some c' -> NEPost r m a c c'.
-Proof.
-  apply (call_rule_ind_gen cfg NEPost).
-  intros call Hcall r0 m0 a0 c0 c0' H Hin Ha B N.
-  pose proof (table_forall_spec _ MS_table r0 m0) as T1. cbn beta in T1.
-  apply orb_true_iff in T1 as [T1|T1]; [rewrite exec_prims_reject in H by exact T1; discriminate|].
-  assert (forall r1 m1 a1 c4 c5, NE_Ra m1 a1 -> call r1 m1 a1 c4 = Some c5 -> In r1 (crules c4) ->
-                                 marker_id c4 <> [] -> NM c4 -> marker_id c5 <> [] /\ NM c5) as HcA.
-  { intros r1 m1 a1 c4 c5 Ra1 Hc I4 B4 N4. destruct (Hcall _ _ _ _ _ Hc I4 Ra1 (or_introl B4) N4) as [_ [N5 B5]]. auto. }
-  (* whenever the marker id is non-empty it stays so *)
-  assert (forall ps c1 c2, forallb (MS_pok m0) ps = true -> exec_prims cfg call r0 m0 a0 ps c1 = Some c2 ->
-                           marker_id c1 <> [] -> NM c1 -> marker_id c2 <> [] /\ NM c2) as ModeA.
-  { induction ps as [|p ps IH]; intros c1 c2 Tp E B1 N1; cbn [exec_prims forallb] in *; [inv_some; auto|].
-    apply andb_true_iff in Tp as [Tp Tps]. destruct (exec_prim cfg call r0 m0 a0 p c1) as [c3|] eqn:E3; [|discriminate].
-    destruct (nonempty_prim cfg call HcA _ _ _ _ _ _ Ha Tp E3 B1 N1) as [B3 N3]. eauto. }
-  assert (marker_id c0 <> [] -> marker_id c0' <> []) as Third.
-  { intro B0. exact (proj1 (ModeA _ _ _ T1 H B0 N)). }
-  pose proof (table_forall_spec _ modeB_table r0 m0) as T2. cbn beta in T2.
-  apply orb_true_iff in T2 as [T2|T2]; [apply orb_true_iff in T2 as [T2|T2]|].
-  - rewrite exec_prims_reject in H by exact T2. discriminate.
-  - (* a marker rule: some marker entry is open, so the id is set *)
-    unfold rule_is_marker in T2. apply rclass_eqb_eq in T2.
-    destruct B as [B|B]; [|exfalso; exact (count_cl_in _ _ Hin T2 B)].
-    destruct (ModeA _ _ _ T1 H B N) as [B' N']. split; [left; exact B' | split; [exact N' | exact Third]].
-  - (* another rule: no registration in this cell *)
-    assert (forall r1 m1 a1 c4 c5, call r1 m1 a1 c4 = Some c5 -> In r1 (crules c4) -> NE_Ra m1 a1 -> NE c4 -> NM c4 -> NE c5 /\ NM c5) as HcB.
-    { intros r1 m1 a1 c4 c5 Hc I4 Ra1 B4 N4. destruct (Hcall _ _ _ _ _ Hc I4 Ra1 B4 N4) as [B5 [N5 _]]. auto. }
-    assert (NE c0' /\ NM c0') as [B' N']; [|split; [exact B' | split; [exact N' | exact Third]]].
-    clear Third Hin. revert c0 H B N. induction (dispatch r0 m0) as [|p ps IH]; intros c0 H B N; cbn [exec_prims forallb] in *; [inv_some; auto|].
-    apply andb_true_iff in T1 as [Tp1 Tps1]. apply andb_true_iff in T2 as [Tp2 Tps2].
-    destruct (exec_prim cfg call r0 m0 a0 p c0) as [c3|] eqn:E3; [|discriminate].
-    destruct (modeB_prim cfg call HcB _ _ _ _ _ _ Ha Tp1 Tp2 E3 B N) as [B3 N3].
-    eapply IH; eauto.
-Qed.
-
-Lemma plan_args_marker cfg e pl : ev_plan cfg e = Some pl -> NE_Ra (p_meth pl) (p_args pl).
-Proof.
-  unfold NE_Ra. intros P M. revert P M.
-  destruct e as [| |v| |m t| |b| | |n|n|z|[z|]|bits|[bf|]|[| | |]|[[| | |]|]|s|b|s| | |id|id| | | |id|id|t cnt d|t d|mt d|ct d|ct d|t|mt|t ct|n m|d];
-    cbn [ev_plan]; intros P M;
-    repeat match goal with H : (if ?b then _ else _) = Some _ |- _ => destruct b eqn:?; try discriminate H end;
-    unfold mkplan in P; inv_some; try discriminate M. cbn. eapply validate_identifier_nonempty; eauto.
-Qed.
-
-Lemma rstep_nonempty cfg c e c' o : rstep cfg c e = Some (c', o) -> NE c -> NM c -> NE c' /\ NM c'.
-Proof.
-  rewrite rstep_plan. destruct (ev_plan cfg e) as [pl|] eqn:P; [|discriminate].
-  destruct (plan_step cfg pl c) as [c2|] eqn:S; [|discriminate]. intros H B N; inv_some.
-  pose proof (plan_args_marker _ _ _ P) as Ra. unfold plan_step, call_current in S.
-  destruct (p_nno pl) as [real|].
-  - destruct (notify_new_object cfg real c) as [c1|] eqn:NN; [|discriminate].
-    assert (NE c1 /\ NM c1) as [B1 N1].
-    { unfold notify_new_object in NN. inv_some; split; try exact N; (eapply NE_le; [| |exact B]; [reflexivity | unfold crules, srules; rsimpl; lia]). }
-    destruct (call_rule_nonempty _ _ _ _ _ _ _ S (or_introl eq_refl) Ra B1 N1) as [B' [N' _]]. auto.
-  - destruct (call_rule_nonempty _ _ _ _ _ _ _ S (or_introl eq_refl) Ra B N) as [B' [N' _]]. auto.
-Qed.
-
-Lemma steps_nonempty cfg es : forall c c', steps cfg c es = Some c' -> NE c -> NM c -> NE c' /\ NM c'.
-Proof.
-  induction es as [|e es IH]; intros c c' H B N; cbn [steps] in H; [inv_some; auto|].
-  destruct (rstep cfg c e) as [[c1 o]|] eqn:R; [|discriminate].
-  destruct (rstep_nonempty _ _ _ _ _ R B N) as [B1 N1]. eauto.
-Qed.
-
-(* the empty identifier is never registered; hence every marked id is the id of a marker event *)
-Theorem marked_ids_are_markers cfg es c id :
-  state_after cfg es = Some c -> In id (akeys (marked c)) -> In (EMarker id) es.
-Proof.
-  rewrite state_after_steps. intros H I.
-  assert (NE init_rctx /\ NM init_rctx) as [B0 N0] by (split; [right; reflexivity | intros []]).
-  destruct (steps_nonempty _ _ _ _ H B0 N0) as [_ N].
-  destruct (marked_ids_are_marker_ids _ _ _ _ H I) as [->|X]; [contradiction | exact X].
-Qed.
-
-(* if every marker got registered, the marker ids of the list are pairwise distinct *)
-Theorem markers_distinct_if_all_registered cfg es c :
-  state_after cfg es = Some c -> refcount c = marker_usage es -> NoDup (marker_ids es).
-Proof.
-  intros H RC. apply (markers_distinct_if_registered cfg es c H); [|exact RC].
-  intro I. apply (marked_ids_are_markers _ _ _ _ H) in I.
-  assert (accepts cfg es = true) as A by (apply accepts_steps; exists c; apply state_after_steps; exact H).
-  apply (validate_identifier_nonempty cfg []); [|reflexivity]. eapply accepted_identifiers_valid; eauto.
-Qed.
-
-Theorem registry_invariants cfg es c :
-  state_after cfg es = Some c ->
-  NoDup (akeys (marked c)) /\ refcount c = N.of_nat (length (marked c)) /\
-  (forall id, In id (akeys (marked c)) -> In (EMarker id) es) /\
-  (forall id, In id (akeys (fwd c)) -> alookup id (marked c) = None) /\
-  (forall id, In (ERefLocal id) es -> In id (akeys (marked c)) \/ In id (akeys (fwd c))) /\
-  (e_rule (cur c) = RTerminal -> fwd c = []).
-Proof.
-  intro H. destruct (document_registry _ _ _ H) as [A1 [A2 [_ [A4 [A5 A6]]]]]. repeat split; auto.
-  intros id I. eapply marked_ids_are_markers; eauto.
-Qed.
+(* Regression examples for the repaired defects: nested markers are accepted and both registered; a marker on
+   a chunked string in key position is registered, so re-using its id is rejected. *)
+Definition nested_marker_example : list event :=
+  [EBeginDoc; EVersion 0; EMarker [97]; EList; EMarker [98]; EPosInt 1; ERefLocal [97]; EEnd; EEndDoc].
+Definition chunked_key_marker_example : list event :=
+  [EBeginDoc; EVersion 0; EMap; EMarker [97]; EArrayBegin AT_String; EArrayChunk 1 false; EArrayData [120]; ENull;
+   EMarker [97]; EPosInt 1; ENull; EEnd; EEndDoc].
+Lemma repaired_marker_examples :
+  accepts_document default_rcfg nested_marker_example = true /\
+  marked_type default_rcfg nested_marker_example [97] = Some DT_List /\
+  marked_type default_rcfg nested_marker_example [98] = Some DT_Int /\
+  rejected_at default_rcfg chunked_key_marker_example = Some 9.
+Proof. vm_compute. repeat split. Qed.
